@@ -85,6 +85,19 @@ class DumperBase(DataStreamProcessor):
         stale = [(obj, prop) for obj, prop in stale if DumperBase.get_attr(obj, prop) is not None]
         for obj, prop in stale:
             DumperBase.set_attr(obj, prop, 0)
+        # ... and drop the default-named counters of an earlier dump that this one records
+        # elsewhere or not at all: they would describe other files
+        mine = (self.datapackage_rowcount, self.datapackage_bytes, self.datapackage_hash)
+        for prop in ('count_of_rows', 'bytes', 'hash'):
+            if prop not in mine and prop in descriptor:
+                del descriptor[prop]
+                stale.append((descriptor, prop))
+        mine = (self.resource_rowcount, self.resource_bytes, self.resource_hash)
+        for resource in descriptor.get('resources', []):
+            for prop in ('count_of_rows', 'bytes', 'hash'):
+                if prop not in mine and prop in resource:
+                    del resource[prop]
+                    stale.append((resource, prop))
         if stale:
             datapackage.commit()
         return datapackage
